@@ -1920,3 +1920,18 @@ M("C05", "occurrence-not-advanced", PG,
   "        self.add_puml_node(node)\n        self.increment_occurrence_count(event_name)\n",
   "        self.add_puml_node(node)\n", "R5.12",
   "two events of one type get the same node identity")
+
+M("C05", "created-node-not-connected", WALK,
+  "    puml_graph.add_puml_edge(previous_puml_node, next_puml_node)\n    return next_puml_node, event_node",
+  "    return next_puml_node, event_node", "R5.13",
+  "the created event node is never linked below its predecessor")
+M("C05", "lonely-merge-index-not-rotated", WALK,
+  '''        if self.lonely_merge_index is not None:
+            self.lonely_merge_index = (self.lonely_merge_index + 1) % len(
+                self.paths
+            )
+''', "", "R5.10", "the lonely-merge position stays behind when the lists rotate")
+M("C01", "break-marks-non-break-nodes", NUP,
+  "        if node.uid in sub_graph_node.break_uids:",
+  "        if node.uid not in sub_graph_node.break_uids:", "R1.7",
+  "BREAK marks every body node that is not a break point")
